@@ -35,6 +35,8 @@ async function build (tier) {
   dims.push({ name: 'look', symbols: LOOKALIKES, free: true })
   dims.push({ name: 'scope', symbols: Object.keys(SCOPES), free: true })
   dims.push({ name: 'body', symbols: Object.keys(BODIES), free: true })
+  // a string statement AFTER the first ordinary statement: inert, must stay where it is
+  dims.push({ name: 'stray', symbols: ['', "'use strict';", '"use asm";'] })
   // one deviation among: another instrumented function in the file / how directives are separated (comments between
   // them included) / comments printed
   dims.push({ name: 'fileinstr', symbols: [true, false] })
@@ -46,11 +48,11 @@ async function build (tier) {
     const dirs = []
     for (let i = 0; i < L; i++) if (p['d' + i]) dirs.push(p['d' + i])
     const sep = p.sep
-    const D = dirs.map((d) => d + sep).join('') + (p.look ? p.look + ' ' : '') + (FILE_SCOPES.has(p.scope) ? '' : BODIES[p.body])
-    const other = FILE_SCOPES.has(p.scope) ? (p.body === 'none' ? 'function other(a, b, g, x) { x = 1 }' : `function other(a, b, g, x) { ${BODIES[p.body]} }`) : ''
+    const D = dirs.map((d) => d + sep).join('') + (p.look ? p.look + ' ' : '') + (FILE_SCOPES.has(p.scope) ? '' : BODIES[p.body] + (p.stray ? ' ' + p.stray : ''))
+    const other = FILE_SCOPES.has(p.scope) ? (p.body === 'none' ? 'function other(a, b, g, x) { x = 1 }' : `function other(a, b, g, x) { ${BODIES[p.body]} ${p.stray || ''} }`) : ''
     let code = SCOPES[p.scope](D, other)
     if (!FILE_SCOPES.has(p.scope) && p.fileinstr) code += '\nfunction extra(a, b) { return a + b }'
-    return { key: [dirs.join(','), p.look, p.scope, p.body, p.fileinstr, JSON.stringify(sep), p.cfg].join('¦'), code, scope: p.scope, cfg: p.cfg }
+    return { key: [dirs.join(','), p.look, p.scope, p.body, p.stray, p.fileinstr, JSON.stringify(sep), p.cfg].join('¦'), code, scope: p.scope, cfg: p.cfg }
   })
   return { leaves, stats: r.stats, bound: { directive_sequence_length: L, directives: DIRECTIVES.length, lookalikes: LOOKALIKES.length, scopes: Object.keys(SCOPES).length, bodies: 3 }, alphabets: { directives: DIRECTIVES, lookalikes: LOOKALIKES, scopes: Object.keys(SCOPES), bodies: BODIES } }
 }
